@@ -61,9 +61,12 @@ class Acc:
         self.transitions = 0
         self.capped = False
         self._tick = 0
+        self._first_key = None
 
     def ev(self, key=None, nontrivial=True, outcome=None):
         self.evaluations += 1
+        if self._first_key is None and key is not None:
+            self._first_key = str(key)[:600]
         if nontrivial and key is not None:
             self.nontrivial.add(h64(key))
         if outcome is not None:
@@ -94,7 +97,8 @@ class Acc:
 
     def result(self):
         return {'evaluations': self.evaluations, 'nontrivial': self.nontrivial, 'outcomes': self.outcomes,
-                'violations': self.violations, 'n_violations': self.n_violations, 'samples': self.samples,
+                'violations': self.violations, 'n_violations': self.n_violations,
+                'samples': self.samples or ([{'case_descriptor': self._first_key}] if self._first_key else []),
                 'cnt': dict(self.cnt), 'states': self.states, 'transitions': self.transitions,
                 'capped': self.capped}
 
